@@ -17,6 +17,7 @@ EXPLANATION = (
     "the rendered text of a child node. The round trip itself (whitespace, layout, nesting) is a property of string values and is NOT decided."
     " (R6) no text-mode emitter filters/skips/takes elements of the lists it is given; (R7) struct emitters write the node's fields in the order the node's parser reads them; (R8) the literal text an emitter writes before/between/after the fields is text the parser's delimiter parsers accept at that place, whitespace aside (parser skeletons and token languages vs. a symbolic evaluation of the emitter's string building; existential over the productions of one node shape; delimiters supplied by calling or position-aware child emitters are followed); (R9) list fields are walked in element order on the text path."
     ' (R10) based-literal prefixes written by the formatter are tags of the parser leaf of that variant; (R11) no HTML entity or tag on the text path of a node emitter.'
+    " (R8, empty nodes) a node whose list field is empty is written with text one of the parser's empty productions accepts; (R12) separators the emitters put between list elements are accepted by the list parser's separator language in that context (a tight comma where the parser needs `, ` or whitespace where it forbids it is reported)."
 )
 OP_ENUMS = ["AddSubOp", "MulDivOp", "PowerOp", "VecOp", "ComparisonOp", "LogicOp", "TableOp", "SetOp", "OpAssignOp", "RangeOp"]
 
